@@ -226,8 +226,11 @@ func urlOracle(u *urlCase, doc string) (clause string, detail string, checked in
 			case strings.HasSuffix(head, "?"):
 				// the `?` that starts the query: the first of the URL, or the one the renderer drops
 				// right after the value that brought the first `?`
+				// (not when that value has a second `?` at its very end: finding
+				// url-value-ends-with-second-question-mark, the `?` of the text is dropped with
+				// nothing in its place)
 				valueStarted := head == "?" && i >= 2 && u.segs[i-2].hole && strings.Contains(u.segs[i-2].txt, "?") &&
-					!strings.Contains(u.segs[i-2].txt, "#") && !questionBefore(u, i-2)
+					!strings.Contains(u.segs[i-2].txt, "#") && !questionBefore(u, i-2) && !endsWithSecondQuestionMark(u.segs[i-2].txt)
 				delimOK = !preQ && strings.Count(head, "?") == 1 || valueStarted
 			case strings.HasSuffix(head, "&") || strings.HasSuffix(head, "&amp;"):
 				delimOK = preQ || strings.Contains(head, "?")
@@ -283,6 +286,11 @@ func urlOracle(u *urlCase, doc string) (clause string, detail string, checked in
 		}
 	}
 	return "", "", checked
+}
+
+// endsWithSecondQuestionMark: the shape of finding url-value-ends-with-second-question-mark
+func endsWithSecondQuestionMark(v string) bool {
+	return strings.HasSuffix(v, "?") && strings.Count(v, "?") >= 2
 }
 
 func questionBefore(u *urlCase, i int) bool {
@@ -382,6 +390,24 @@ func knownURLFindings(c *hx.Ctx) {
 	}
 }
 
+// url-value-ends-with-second-question-mark, replayed on the real engine
+func knownSecondQuestionMarkFinding(c *hx.Ctx) {
+	u := &urlCase{tag: "a", attr: "href", quote: `"`, segs: []urlSeg{{hole: true, txt: "/q?a=1?"}, {txt: "?p2="}, {hole: true, txt: "x"}}}
+	doc, fail := renderURLTemplate(u)
+	if fail != "" {
+		return
+	}
+	val, _ := attrValue(doc, "href")
+	pu, err := url.Parse(val)
+	if err != nil {
+		return
+	}
+	if q := pu.Query(); q.Get("p2") != "x" || q.Get("a") != "1?" {
+		c.Res.AddBreak(proto.Break{Kind: "property", Name: "url-query-value-decodes-back", Case: callsLine(u.calls()), Human: u.human() + " renders " + doc,
+			Impl: fmt.Sprintf("a=%q p2=%q", q.Get("a"), q.Get("p2")), Model: "a=\"1?\" p2=\"x\"", Finding: c.Known("url-value-ends-with-second-question-mark")})
+	}
+}
+
 // url-srcset-stale-flags, replayed on the real engine
 func knownSrcsetFinding(c *hx.Ctx) {
 	u := &urlCase{tag: "img", attr: "srcset", quote: `"`, segs: []urlSeg{{hole: true, txt: "a?b="}, {txt: ", "}, {hole: true, txt: "img"}, {txt: "?w="}, {hole: true, txt: "x&y=z"}, {txt: " 2x"}}}
@@ -444,6 +470,7 @@ func runURL(c *hx.Ctx) error {
 	res := c.Res
 	knownURLFindings(c)
 	knownSrcsetFinding(c)
+	knownSecondQuestionMarkFinding(c)
 	var cases []*urlCase
 	cases = append(cases, fixedURLCases()...)
 	for i := 0; i < c.N(2500, 60000); i++ {
